@@ -44,8 +44,8 @@ def gen_cases(tier, seed):
     for i in range(2 if tier == 'quick' else 20):
         cases.append({'kind': 'socket-stream-gaps', 'streams': 8, 'seed': rng.randrange(1 << 30)})
     # a request that cannot be transported, among ordinary ones
-    for i, what in enumerate(['response', 'payload', 'deep-payload'] * (1 if tier == 'quick' else 6)):
-        cases.append({'kind': 'socket-poison', 'what': what, 'connections': [1, 2, 3][(i // 3 + i) % 3], 'rounds': 2, 'seed': rng.randrange(1 << 30)})
+    for i, what in enumerate(['response', 'payload', 'deep-payload', 'unloadable-payload', 'unloadable-response'] * (1 if tier == 'quick' else 4)):
+        cases.append({'kind': 'socket-poison', 'what': what, 'connections': [1, 2, 3, 1, 2][(i // 5 + i) % 5], 'rounds': 2, 'seed': rng.randrange(1 << 30)})
     for i in range(8 if tier == 'quick' else 100):
         cases.append({'kind': 'pipe', 'steps': rng.choice([6, 20]), 'seed': rng.randrange(1 << 30)})
     # one side sends its last object and ends at once; the other side is slow to get to its first recv
@@ -383,6 +383,10 @@ def run_socket_poison(case):
                         client.request('/unpicklable', rd, response_timeout=4)
                     elif case['what'] == 'payload':
                         client.request('/echo', (rd, threading.Lock()), response_timeout=4)
+                    elif case['what'] == 'unloadable-payload':
+                        client.request('/echo', (rd, targets.Unloadable('runtime')), response_timeout=4)  # pickles here, cannot be rebuilt by the server
+                    elif case['what'] == 'unloadable-response':
+                        client.request('/unloadable', rd, response_timeout=4)
                     else:
                         deep = []
                         for _ in range(100_000):
